@@ -75,7 +75,14 @@ func getChildName(path []string, node unserialized, sn schema.Node) (string, err
 
 			// Validate the value of the key
 			if err := sn.Child(key).Validate(nil, path, []string{name}); err != nil {
-				return "", err
+				// An identityref key may come in the RFC7951
+				// namespace-qualified form; as for any other leaf the
+				// simple form is the one kept (see convertToDataNode).
+				simple, valid := isIdentityrefSimpleFormValid(path, sn.Child(key), name)
+				if !valid {
+					return "", err
+				}
+				name = simple
 			}
 		}
 		if found == false {
